@@ -538,32 +538,52 @@ class WriteAbort(Exception):
 
 
 class WriteWalk:
-    def __init__(self, spec, sanitize=False):
+    def __init__(self, spec, sanitize=False, emit=False):
         self.spec = spec
         self.sanitize = sanitize
         self.ops = []
         self.frames = []
         self.written = 0
+        self.emit = emit          # also produce the bytes (None as soon as a value cannot be rendered)
+        self.out = bytearray() if emit else None
 
-    def op(self, kind, nbytes):
+    def op(self, kind, nbytes, args=None):
         self.ops.append((kind, self.sanitize))
         self.written += nbytes
+        if self.out is not None:
+            if args is None:
+                self.out = None
+                return
+            try:
+                from .writer_model import WriterModel
+                wm = WriterModel()
+                wm.sanitize = self.sanitize
+                self.out += wm.image(kind, args)
+            except Exception:  # noqa  (a value the writer would refuse: no byte image)
+                self.out = None
 
-    def write_int(self, wire):
-        self.op("add_" + wire, SIZES[wire])
+    def write_int(self, wire, value=None):
+        if isinstance(value, dict):
+            value = value.get("v")
+        elif isinstance(value, bool):
+            value = int(value)
+        elif isinstance(value, str):
+            t = value.strip()
+            value = {"true": 1, "false": 0}.get(t.lower(), None) if not t.lstrip("+-").isdigit() else int(t)
+        self.op("add_" + wire, SIZES[wire], None if value is None else [value])
 
     def write_value(self, type_string, value, length=None, padded=False):
         kind, base, wire = self.spec.resolve(type_string)
         if kind in ("int", "bool", "enum"):
-            self.write_int(wire)
+            self.write_int(wire, value)
         elif kind == "string":
             enc = base == "encoded_string"
             if length is None:
-                self.op("add_encoded_string" if enc else "add_string", len(value))
+                self.op("add_encoded_string" if enc else "add_string", len(value), [value])
             else:
-                self.op("add_fixed_encoded_string" if enc else "add_fixed_string", length)
+                self.op("add_fixed_encoded_string" if enc else "add_fixed_string", length, [value, length, bool(padded)])
         elif kind == "blob":
-            self.op("add_bytes", len(value["blob"]) // 2)
+            self.op("add_bytes", len(value["blob"]) // 2, [bytes.fromhex(value["blob"])])
         else:
             self.write_class(self.spec.structs[base], value)
 
@@ -573,11 +593,25 @@ class WriteWalk:
         self.frames.append(frame)
         needs_len = self._needs_len(cd)
         start = self.written
+        # which member each <length> field of this class counts (same scope, possibly inside <chunked>)
+        refs = {}
+
+        def scan(body):
+            for ins in body:
+                if ins.tag in ("field", "array") and ins.length is not None and not ins.length.lstrip("+-").isdigit():
+                    refs[ins.length] = ins
+                elif ins.tag == "chunked":
+                    scan(ins.body)
+
+        scan(cd.body)
+        self._len_refs = getattr(self, "_len_refs", [])
+        self._len_refs.append(refs)
         try:
             if needs_len:
                 self.ops.append(("len", self.sanitize))
             self.run_body(cd.body, value["f"], start, cd.static_chunked, {"reached_missing": False})
         finally:
+            self._len_refs.pop()
             self.sanitize = entry
             frame[2] = entry
 
@@ -616,10 +650,10 @@ class WriteWalk:
                     n = len(value)
                     for i, el in enumerate(value):
                         if ins.delimited and not ins.trailing and i > 0:
-                            self.op("add_byte", 1)
+                            self.op("add_byte", 1, [0xFF])
                         self.write_value(ins.type, el)
                         if ins.delimited and ins.trailing:
-                            self.op("add_byte", 1)
+                            self.op("add_byte", 1, [0xFF])
                 elif tag == "length":
                     self.write_value(ins.type, value)
                 else:
@@ -650,11 +684,17 @@ class WriteWalk:
             elif tag == "break":
                 emitted["any"] = True
                 st["reached_missing"] = st["reached_missing"]  # a break does not reset the runtime flag
-                self.op("add_byte", 1)
+                self.op("add_byte", 1, [0xFF])
 
     def _value_of(self, ins, fields):
         if ins.tag == "length":
-            return fields.get("$len:" + ins.name, 0)
+            if "$len:" + ins.name in fields:
+                return fields["$len:" + ins.name]
+            ref = (self._len_refs[-1] if getattr(self, "_len_refs", None) else {}).get(ins.name)
+            member = fields.get(ref.name) if ref is not None else None
+            if member is None:
+                return 0 if not self.emit else None
+            return len(member) - (ins.offset or 0)
         if ins.name is None:
             return ins.value
         if ins.value is not None:
@@ -662,7 +702,7 @@ class WriteWalk:
         return fields.get(ins.name)
 
 
-def write_walk(spec, value, sanitize=False):
-    walk = WriteWalk(spec, sanitize)
+def write_walk(spec, value, sanitize=False, emit=False):
+    walk = WriteWalk(spec, sanitize, emit)
     walk.write_class(spec.classes[value["cls"]], value)
     return walk
